@@ -1,3 +1,4 @@
+import WS.Lemmas.Sequences
 import WS.Lemmas.JoinLaw
 import WS.Lemmas.ReaderZ
 import WS.Lemmas.SrcLaw
@@ -136,6 +137,22 @@ theorem join_two_messages (c : Conn) (hc : ReaderIdle c) (t1 t2 : Nat) (ht1 : t1
   exact JoinLaw.join_two_messages c hc t1 t2 ht1 ht2 fs1 fs2 hs1 hs2 rest hp hend hsz hlim term k hk fuel hf
 
 
+open WS.ReaderDecodes WS.Sequences in
+/-- read_message for ANY NUMBER of messages: from an idle reader, a stream of any number of
+    conformant messages (each with any fragmentation, empty frames, control frames between fragments)
+    followed by `rest` is read as exactly those messages, in wire order, each exactly once; the
+    handlers saw the interleaved control frames in wire order; the reader is idle again with `rest`
+    untouched -/
+theorem read_messages (c : Conn) (hc : ReaderIdle c) (msgs : List (Nat × List PFrame))
+    (hm : ∀ m ∈ msgs, (m.1 = 1 ∨ m.1 = 2) ∧ MsgShape m.1 m.2 ∧ (dataPayload m.2).length < 2 ^ 62)
+    (rest : Bytes)
+    (hp : c.r.buf.pending = (msgs.map (fun m => encAll c.r.isServer m.2)).flatten ++ rest)
+    (hend : c.r.buf.t.together = false ∨ rest ≠ []) (hlim : c.r.limit ≤ 0) (k : Nat) (hk : 0 < k) :
+    ∃ c', readMsgs k msgs.length c = (msgs.map (fun m => (m.1, dataPayload m.2)), c') ∧
+      ReaderIdle c' ∧ c'.r.buf.pending = rest ∧
+      c'.r.hlog = c.r.hlog ++ (msgs.map (fun m => ctlEvents m.2)).flatten := by
+  first | exact WS.Sequences.read_messages .. | (apply WS.Sequences.read_messages <;> assumption)
+
 /-! ### non-vacuity -/
 section NonVacuity
 set_option linter.defProp false
@@ -225,6 +242,30 @@ example : ∃ c1 rid1, nextReader witSrv = (.msg 1 rid1 false, c1) ∧
           c4.r.hlog = [.pong []] ++ [.ping [0x70]] ++ [.pong []] :=
   abandon_then_next witSrv witSrv_idle 1 2 (Or.inl rfl) (Or.inr rfl) witMsg witMsg2 witMsg_shape witMsg2_shape [0x81]
     (by decide) (Or.inl rfl) ⟨by decide, by decide⟩ (by decide) [2, 1] 3 (by decide)
+
+/-- the two messages of `witWire` as a sequence: text "Hello" in two fragments with a ping in between,
+    then (after a pong) a single-frame binary message -/
+def witMsgs : List (Nat × List PFrame) := [(1, witMsg), (2, witMsg2)]
+
+def witMsgs_ok : ∀ m ∈ witMsgs, (m.1 = 1 ∨ m.1 = 2) ∧ MsgShape m.1 m.2 ∧ (dataPayload m.2).length < 2 ^ 62 := by
+  intro m hm
+  simp only [witMsgs, List.mem_cons, List.not_mem_nil, or_false] at hm
+  rcases hm with rfl | rfl
+  · exact ⟨Or.inl rfl, witMsg_shape, by decide⟩
+  · exact ⟨Or.inr rfl, witMsg2_shape, by decide⟩
+
+/-- non-vacuity of `read_messages`: `ReaderIdle`, the per-message hypotheses (type, `MsgShape`, size),
+    the pending bytes = the masked encodings of both messages ++ [0x81], `hend` and the limit
+    hypothesis hold together for the server reader `witSrv`; reads of 2 bytes -/
+example : ∃ c', WS.Sequences.readMsgs 2 2 witSrv =
+        ([(1, [0x48, 0x65, 0x6c, 0x6c, 0x6f]), (2, [0xde, 0xad, 0xbe, 0xef])], c') ∧
+      ReaderIdle c' ∧ c'.r.buf.pending = [0x81] ∧
+      c'.r.hlog = [.pong []] ++ [.ping [0x70], .pong []] :=
+  read_messages witSrv witSrv_idle witMsgs witMsgs_ok [0x81] (by decide) (Or.inl rfl) (by decide) 2 (by decide)
+
+/-- the same instance evaluated directly on the model -/
+example : (WS.Sequences.readMsgs 2 2 witSrv).1 = [(1, [0x48, 0x65, 0x6c, 0x6c, 0x6f]), (2, [0xde, 0xad, 0xbe, 0xef])] ∧
+    (WS.Sequences.readMsgs 2 2 witSrv).2.r.hlog = [.pong [], .ping [0x70], .pong []] := by decide +kernel
 
 section Z
 open WS.ReaderZ
